@@ -1,5 +1,5 @@
 """vfchecks -- the per-property decision procedures (DESIGN.md section 5) expressed as explorer runs."""
-import os, sys, json, time, subprocess, re, hashlib, glob
+import os, sys, json, time, subprocess, re, hashlib, glob, threading
 from vflib import *
 
 # --------------------------------------------------------------------------- machine configurations (DESIGN.md 5)
@@ -129,18 +129,39 @@ def run_specs(V, specs, tier, budget=None):
     for (sp, h), (binary, err) in zip(index, built):
         if err:
             raise BuildFailed(err)
+    # schedule: every run occupies `workers` of the NCPU slots; MSan runs are single-process (snapshots must stay in memory
+    # for their shadow to survive) and therefore run side by side
+    cond = threading.Condition(); free = [NCPU]
+    def one(item):
+        (sp, h), (binary, err) = item
         prefills = sp['prefills'] or [None]
-        digests = {}
+        outs = []
+        workers = 1 if sp['variant'] == 'msan' else sp['workers']
         for pf in prefills:
-            remaining = budget - (time.time() - t_begin)
             dl = max(20.0, budget * sp['share'] / total_share / len(prefills) * 1.5)
-            if remaining < 20: dl = 20.0
             props = sp['props'] or ['C%02d' % int(V.prop[1:])]
             name = sp['cfg'] + ('/dev' if h == 'dev' else '') + ('' if sp['variant'] == 'plain' else '/' + sp['variant']) + ('' if pf is None else '/pf%02x' % pf) + '/d%d' % sp['dev'] + ('/strat' if '--strategies' in sp['flags'] else '')
-            run = run_fsmx(binary, name, props, sp['dev'], sp['mf'], sp['og'], workers=sp['workers'], deadline=dl, flags=sp['flags'], prefill=pf)
+            need = min(workers, NCPU)
+            with cond:
+                while free[0] < need: cond.wait()
+                free[0] -= need
+            try:
+                run = run_fsmx(binary, name, props, sp['dev'], sp['mf'], sp['og'], workers=workers, deadline=dl, flags=sp['flags'], prefill=pf)
+            finally:
+                with cond:
+                    free[0] += need; cond.notify_all()
+            outs.append((pf, run))
+        return (sp, h, outs)
+    # big (multi-worker) runs first, one after the other; single-process runs fill the remaining slots
+    items = list(zip(index, built))
+    with ThreadPoolExecutor(max_workers=NCPU) as ex:
+        results = list(ex.map(one, items))
+    for sp, h, outs in results:
+        digests = {}
+        for pf, run in outs:
             rs = dict(sp); rs['header'] = h
             V.add_fsmx(run, sp['cfg'], CONFIGS[sp['cfg']], rs)
-            if run['result'] is None and sp['variant'] != 'plain':
+            if sp['variant'] != 'plain' and (run['result'] is None or run['rc'] not in (0, 1) or 'VX-INFLIGHT' in run['stderr'] or 'runtime error' in run['stderr']):
                 sanitizer_report(V, run, sp, h)
             if run['result'] is not None and pf is not None:
                 digests[pf] = (run['result']['digest'], run['result']['states'], run['result']['transitions'])
